@@ -63,17 +63,17 @@ impl<const N: usize, T: Send + Sync> ConIterOfArray<N, T> {
         super::taken_slice::TakenSlice::new(ptr, len)
     }
 
+    /// Moves the elements at positions `left_len..N` out of the array.
+    ///
+    /// # Safety
+    ///
+    /// The elements at `left_len..N` must still be owned by the array, and must not be used or dropped through the array afterwards.
     unsafe fn split_off_right(&self, left_len: usize) -> Vec<T> {
         debug_assert!(left_len <= N);
 
-        let man_array = &mut *self.array.get();
-        let mut array = ManuallyDrop::take(man_array);
-
-        let mut vec = Vec::from_raw_parts(array.as_mut_ptr(), N, 0);
-        let right_vec = vec.split_off(left_len);
-
-        *man_array = ManuallyDrop::new(array);
-        right_vec
+        let array = &mut *self.array.get();
+        let ptr = array.as_mut_ptr();
+        (left_len..N).map(|i| ptr.add(i).read()).collect()
     }
 }
 
@@ -186,6 +186,8 @@ impl<const N: usize, T: Send + Sync> ConcurrentIter for ConIterOfArray<N, T> {
     fn into_seq_iter(self) -> Self::SeqIter {
         let current = self.counter().current();
         let remaining_vec = unsafe { self.split_off_right(current.min(N)) };
+        // all elements are moved out either to the callers or to `remaining_vec`; nothing is left to drop
+        std::mem::forget(self);
         remaining_vec.into_iter()
     }
 
